@@ -25,4 +25,6 @@ for c in $CHECKS; do
   echo "$out" >> $LOG
 done
 git -C $R reset -q --hard; git -C $R clean -fdq -e _build >>$LOG 2>&1
+# the VERIF_REPO runs regenerated coq/gen from the patched tree: restore it from /repo
+python3 /verif/translate/run_all.py >>$LOG 2>&1
 echo "{\"seed\":\"$SID\",\"build_before\":$B0,\"demo_before\":$D0,\"patch_applies\":$AP,\"build_after\":$B1,\"ctest_after\":$T1,\"demo_after\":$D1,\"checks\":[${RES%,}]}"
